@@ -2406,10 +2406,12 @@ def two_client_case(ctx, calls, names, pre, events, cuts=None, regression=None):
             ctx.violation('undocumented-fault-code', '%s: %s answered fault %r' % (what, m, g[1]), inp)
         elif g[0] == 'value' and not doc_shape_ok(m, p, g[1]):
             ctx.violation('value-shape:' + m, '%s: %s answered %s' % (what, m, short(g[1])), inp)
-    def strip_pid(x):       # the two worlds hand out the same pids; wall-clock fields are removed by norm_value
-        return x
-    got = [(k, v if k == 'fault' else norm_value(v)) for k, v in raw]
-    want = [(r[0], r[1]) if r != 'never' else ('never',) for r in ref]
+    def unclock(x):         # the real Subprocess reads the wall clock (laststart / laststop): not part of the comparison
+        if isinstance(x, dict):
+            return dict((k, unclock(v)) for k, v in x.items() if k not in ('start', 'stop'))
+        return [unclock(y) for y in x] if isinstance(x, list) else x
+    got = [(k, v if k == 'fault' else unclock(norm_value(v))) for k, v in raw]
+    want = [(r[0], r[1] if r[0] == 'fault' else unclock(r[1])) if r != 'never' else ('never',) for r in ref]
     if got != want:
         ctx.violation('multicall-differs-from-sequential' if multi else 'wire-answer-differs-from-direct:' + method,
                       '%s answered %s; the calls made one after another (each polled to completion) answer %s' % (what, short(got, 300), short(want, 300)), inp)
